@@ -587,6 +587,12 @@ class BuiltinMixin:
             if len(args) > 1:
                 return [(st, args[1])]
             return [self.raised(st, "StopIteration")]
+        if isinstance(it, VRef) and isinstance(st.deref(it), HObj) and st.deref(it).cls[0].startswith("liquid"):
+            h = st.deref(it)
+            m = load.find_method(h.cls[0], h.cls[1], "__next__")
+            if m is not None and len(args) == 1:
+                f = VFunc(m[2], load.get_module(m[0]), None, f"{m[1]}.__next__", (m[0], m[1]))
+                return self.call_function(st, f, [], {}, self_val=it)
         if not (isinstance(it, VRef) and isinstance(st.deref(it), HIter)):
             raise Unsupported("next() of non-iterator")
         h = st.deref(it)
@@ -1220,6 +1226,11 @@ class BuiltinMixin:
 
     def m_regex_fullmatch(self, st, rx, args, kwargs):
         f = z3.Function("re_fullmatch$" + rx.py[2], S, B)
+        return [(st, VBool(f(self._s(args[0]))))]
+
+    def m_regex_search(self, st, rx, args, kwargs):
+        # only its truth value is modelled (uninterpreted predicate of the text)
+        f = z3.Function("re_search$" + rx.py[2], S, B)
         return [(st, VBool(f(self._s(args[0]))))]
 
     def m_regex_match(self, st, rx, args, kwargs):
